@@ -23,7 +23,7 @@ func runEmitScenario(seed uint64, size int, t *Trace) error {
 	sink := newUDPSink()
 	defer sink.c.Close()
 	srvKey := detKey(seed, 60)
-	servers := map[glow.PublicKey]client.GCAServer{srvKey.Pub: {Location: "127.0.0.1", HttpPort: 1, TcpPort: closedPortOnce(), UdpPort: sink.port()}}
+	servers := map[glow.PublicKey]client.GCAServer{srvKey.Pub: {Location: myIP, HttpPort: 1, TcpPort: closedPortOnce(), UdpPort: sink.port()}}
 	g := int64(glow.GenesisTime)
 	origin := uint32(0)
 	dir := freshDir("emit")
